@@ -547,6 +547,9 @@ func (d *D) Describe(ev *core.Evidence, st *core.Stats) {
 	}
 	ev.Coverage["faults_injected"] = faults
 	ev.Coverage["end_classes"] = ends
+	ev.Coverage["probes"] = map[string]int64{"stream_runs_with_svg_platform": c["stream_runs_with_svg_platform"], "l2_runs": c["l2_runs"], "events_handled": c["events_handled"],
+		"parser_crashes_seen_and_skipped(C03)": c["parser_crash_observed_outside_scope(C03)"], "programs_rejected_by_parser": c["programs_rejected_by_parser"],
+		"eof_in_the_middle_of_a_line": c["fired:eof-in-the-middle-of-a-line"], "eof_before_first_byte": c["fired:eof-before-first-byte"]}
 	ev.Coverage["simulated_time_s"] = float64(c["simulated_ns"]) / 1e9
 	ev.Coverage["steps"] = c["steps"]
 	ev.Coverage["components"] = map[string][]string{
